@@ -1,6 +1,6 @@
 ---- MODULE MC_QuorumCert ----
 EXTENDS QuorumCert
 \* the history only records the verdict of the closing verification
-ViewNoHist == <<n, cert, proof, done>>
+ViewNoHist == <<ctx, n, cert, proof, done>>
 IntersectionOnce == (hist = <<>> /\ cert = <<>>) => QuorumIntersection
 ====
